@@ -58,7 +58,7 @@ for name, pid, meta in rows:
     c = meta['checks'] or {}
     al = c.get('alarms', {})
     other = ' '.join(f'{p}({k})' for p, k in al.items() if p != pid) or '-'
-    rp = (c.get('target_replay') or '-').replace('|', '\\|')[:90]
+    rp = ''.join(ch if (32 <= ord(ch) != 127) else '\\x%02x' % ord(ch) for ch in (c.get('target_replay') or '-')).replace('|', '\\|')[:90]
     lines.append(f"| {name} | {pid} | {c.get('target_detected') or 'not run'} | `{rp}` | {other} |")
 for name in ['D1', 'D2', 'D3', 'D4']:
     mx = matrix.get(name, {}).get('results', {})
